@@ -194,6 +194,8 @@ func runC09(r *Run) {
 
 		ruleRetUnits(r, v, "R09.2", "R09.3", false)
 	}
+	r.floor("R09.2b", 7)
+	ruleDispatchBookkeeping(r, "R09.2b")
 }
 
 // ruleRetUnits decides, on the units of one variant, the ret hold of the control
@@ -360,6 +362,103 @@ func ruleRetUnits(r *Run, v *variant, rule92, rule93 string, stopNow bool) {
 					}
 					return true
 				})
+			}
+		}
+	}
+}
+
+// ruleDispatchBookkeeping: the control unit dispatches from two places (its
+// queue of held instructions and its input bus). The flags it raises after a
+// successful dispatch (a branch was pushed in this cycle; a conditional branch
+// is unresolved — the flag the ret hold tests) must be raised identically at
+// every such place (sibling agreement): a dispatch site that forgets one lets
+// a ret, or a second branch, slip past an unresolved branch.
+func ruleDispatchBookkeeping(r *Run, rule string) {
+	w := r.W
+	for _, v := range variants(w) {
+		if v.pkg == nil || !multiExec(v) {
+			continue
+		}
+		for _, f := range v.fields {
+			if !f.isUnit {
+				continue
+			}
+			for i := 0; i < f.unitT.NumMethods(); i++ {
+				fd, pk := w.FuncDecl(f.unitT.Method(i))
+				if fd == nil || fd.Body == nil {
+					continue
+				}
+				info := pk.TypesInfo
+				// bool locals defined from a call with two bool results (push, stop := u.handleRunner(...))
+				pushVars := map[types.Object]bool{}
+				ast.Inspect(fd.Body, func(n ast.Node) bool {
+					as, ok := n.(*ast.AssignStmt)
+					if !ok || len(as.Lhs) != 2 || len(as.Rhs) != 1 {
+						return true
+					}
+					if _, ok := as.Rhs[0].(*ast.CallExpr); !ok {
+						return true
+					}
+					if id, ok := as.Lhs[0].(*ast.Ident); ok {
+						if o := info.Defs[id]; o != nil && typeName(o.Type()) == "bool" {
+							pushVars[o] = true
+						}
+					}
+					return true
+				})
+				if len(pushVars) < 2 {
+					continue
+				}
+				var sigs []string
+				var poss []token.Pos
+				ast.Inspect(fd.Body, func(n ast.Node) bool {
+					is, ok := n.(*ast.IfStmt)
+					if !ok {
+						return true
+					}
+					id, ok := ast.Unparen(is.Cond).(*ast.Ident)
+					if !ok || !pushVars[info.Uses[id]] {
+						return true
+					}
+					set := map[string]bool{}
+					ast.Inspect(is.Body, func(m ast.Node) bool {
+						inner, ok := m.(*ast.IfStmt)
+						if !ok {
+							return true
+						}
+						for _, st := range inner.Body.List {
+							if as, ok := st.(*ast.AssignStmt); ok && len(as.Lhs) == 1 {
+								if sel, ok := as.Lhs[0].(*ast.SelectorExpr); ok {
+									if s := info.Selections[sel]; s != nil && s.Kind() == types.FieldVal {
+										if tv := info.Types[as.Rhs[0]]; tv.Value != nil {
+											// condition rendered without the local's name: the predicate called on the instruction type
+											c := types.ExprString(inner.Cond)
+											if k := strings.LastIndex(c, "."); k >= 0 {
+												c = c[k+1:]
+											}
+											set[s.Obj().Name()+"="+tv.Value.String()+" if "+c] = true
+										}
+									}
+								}
+							}
+						}
+						return true
+					})
+					sigs = append(sigs, strings.Join(sortedKeys(set), "; "))
+					poss = append(poss, is.Pos())
+					return true
+				})
+				if len(sigs) < 2 {
+					continue
+				}
+				same := true
+				for _, s := range sigs {
+					if s != sigs[0] {
+						same = false
+					}
+				}
+				key := fmt.Sprintf("%s.(%s).%s:dispatch-bookkeeping", v.rel, f.unitT.Obj().Name(), fd.Name.Name)
+				r.check(same, rule, key, poss[0], "every place that dispatches an instruction raises the same flags afterwards: %q", sigs)
 			}
 		}
 	}
